@@ -309,6 +309,51 @@ func generate(thorough bool) []*Case {
 			}
 		}
 	}
+	if thorough {
+		// three and all four families at once, independent scopes
+		mk := func(key string, o opt, ctr string) slots {
+			sl := map[string]int{}
+			if o.p != 0 {
+				s := o.scope
+				if s == "container" {
+					s = "container." + ctr
+				}
+				sl[s] = o.p
+			}
+			return slots{key, sl}
+		}
+		var rec func(sel []int, from int)
+		rec = func(sel []int, from int) {
+			if len(sel) >= 3 {
+				idx := make([]int, len(sel))
+				for {
+					for _, ctr := range ctrs {
+						var fs []slots
+						for k, fi := range sel {
+							fs = append(fs, mk(fams[fi], opts[idx[k]], ctr))
+						}
+						out = append(out, &Case{Family: fmt.Sprintf("%d-families", len(sel)), Ctr: ctr, Fams: fs})
+					}
+					k := 0
+					for k < len(idx) {
+						idx[k]++
+						if idx[k] < len(opts) {
+							break
+						}
+						idx[k] = 0
+						k++
+					}
+					if k == len(idx) {
+						break
+					}
+				}
+			}
+			for i := from; i < len(fams); i++ {
+				rec(append(append([]int(nil), sel...), i), i+1)
+			}
+		}
+		rec(nil, 0)
+	}
 	// ulimit payload variants: spellings x (soft, hard)
 	for _, sp := range []struct{ in, norm string }{{"NOFILE", "RLIMIT_NOFILE"}, {"nofile", "RLIMIT_NOFILE"}, {"RLIMIT_NOFILE", "RLIMIT_NOFILE"}, {"rlimit_nofile", "RLIMIT_NOFILE"}, {"Rlimit_NoFile", "RLIMIT_NOFILE"}, {"BOGUS", ""}, {"RLIMIT_", ""}, {"", ""}} {
 		for _, sh := range [][2]int{{1, 2}, {2, 2}, {3, 2}, {0, 0}} {
